@@ -19,7 +19,7 @@ ASSUME DeviationExact
 \* the deviations, spelled out, so that a change of the model that widens them is noticed
 ASSUME {m \in Selectors : Supported(m) /\ ~Inverts(m)} = {PKWARE, ADPCM_MONO + PKWARE, ADPCM_STEREO + PKWARE}
 ASSUME \A m \in LosslessSingles : CompressPlan(m).ok /\ (Inverts(m) \/ m = PKWARE)
-ASSUME DecodeClass(PKWARE) = "panic" /\ DecodeClass(ADPCM_MONO + BZIP2) = "ok" /\ DecodeClass(ZLIB) = "ok"
+ASSUME DecodeClass(PKWARE) = "err" /\ DecodeClass(ADPCM_MONO + BZIP2) = "ok" /\ DecodeClass(ZLIB) = "ok"
 \* the region where the limits refuse the compressor's own output is exactly n div d > 1000 for n <= 2 MiB:
 \* the adaptive table never binds earlier
 ASSUME \A m \in {ZLIB, BZIP2, SPARSE, PKWARE, LZMA, 66, 144, 160} : \A n \in MCLens : \A d \in MCOut(n) :
